@@ -102,6 +102,56 @@ def r_names(ctx):
         ctx.violation(rid, "group_to_fields|dedupe", F, g.line, "group_to_fields no longer de-duplicates field names")
 
 
+def r_fielddedup(ctx):
+    import itertools
+    import absint
+    from absint import Interp, MutList, Return, Unknown
+    rid = "C17.fielddedup"
+    ctx.rule(rid, "deduplicate_field_names leaves the field names of one struct pairwise distinct and never renames the first field that "
+                  "carries a name: interpreted on every list of up to four fields over the names a, a_1, a_2, b (a name that already looks "
+                  "like a generated suffix must not be produced a second time)", floor=100)
+    fi = ctx.facts.fn(F, "deduplicate_field_names")
+    pname = [inp["pat"]["n"] for inp in fi.node["sig"]["inputs"] if "pat" in inp and inp["pat"]["k"] == "pid"][0]
+    names = ["a", "a_1", "a_2", "b"]
+    n = 0
+    seen = set()
+    for k in range(1, 5):
+        for combo in itertools.product(names, repeat=k):
+            fields = MutList([("enum", "RustField", {"name": ("str", x), "original_name": ("str", x), "rust_type": absint.OPAQUE, "optional": False}) for x in combo])
+            it = Interp(env={pname: fields}, on_call=None)
+            it.string_places = True
+            it.resolve_fn = vf.new_fn_resolver(ctx.facts, [F])
+            try:
+                try:
+                    it.block(fi.node["body"])
+                except Return:
+                    pass
+            except Unknown as e:
+                ctx.incomplete_msg(rid, "%s: %s" % (",".join(combo), e))
+                continue
+            n += 1
+            out = []
+            for fl in fields:
+                v = fl[2]["name"]
+                out.append(absint._strval(v) if absint._strval(v) is not None else ("".join(c[1] for c in v) if isinstance(v, MutList) else repr(v)))
+            if n <= 3:
+                ctx.site(rid, ",".join(combo), F, fi.line, {"names_after": out})
+            dup = sorted({x for x in out if out.count(x) > 1})
+            first_kept = all(out[i] == combo[i] for i in range(k) if combo[i] not in combo[:i] and combo[i] not in out[:i])
+            if dup and "collision" not in seen:
+                seen.add("collision")
+                ctx.violation(rid, "collision", F, fi.line, "fields named %s become %s: %s occurs twice, the generated struct does not compile" % (list(combo), out, dup))
+            elif not dup and not first_kept and "renames-first" not in seen:
+                seen.add("renames-first")
+                ctx.violation(rid, "renames-first", F, fi.line, "fields named %s become %s: a field whose name was free is renamed" % (list(combo), out))
+    ctx.site(rid, "lists", F, fi.line, {"evaluated": n})
+    ctx.extra["evaluations"] = ctx.extra.get("evaluations", 0) + n
+    ctx.extra["distinct_nontrivial"] = ctx.extra.get("distinct_nontrivial", 0) + n
+    ctx.rules[rid]["floor"] = 2
+    if n < 300:
+        ctx.incomplete_msg(rid, "only %d name lists evaluated" % n)
+
+
 IMPURE = ("SystemTime", "Instant", "rand::", "thread_rng", "std::env", "env::var", "thread_local", "RandomState", "Utc::now", "Local::now", "std::process", "std::fs")
 
 
@@ -261,3 +311,4 @@ def run(ctx):
     ctx.guarded("C17.pure", r_pure)
     ctx.guarded("C17.typemap", r_typemap)
     ctx.guarded("C17.optional", r_optional)
+    ctx.guarded("C17.fielddedup", r_fielddedup)
